@@ -14,7 +14,8 @@ RULE = ("Hypothesis programs over every size-bearing statement kind (instruction
         "base default / .link (leading or late) / leading '. =' with even and (byte-only programs) odd values. Oracles: (1) reference "
         "assembler R3: base, image, every symbol value in Compiler.symbols; (2) model-free trace invariant through the PDPY11_VERIF "
         "hook: for every statement image[addr-base : +len(chunk)] == chunk and the leaf statements tile the image exactly; (3) the 21 "
-        "practice programs under the same trace invariant and against their recorded out.bin. Non-trivial: >= 1 statement whose size "
+        "practice programs under the same trace invariant and against their recorded out.bin; (4) the trace invariant on every error-free "
+        "survivor of the C08 generators (mutated G texts, mutated corpus windows), which needs no model. Non-trivial: >= 1 statement whose size "
         "is unknown when first met (late constant, .repeat, alignment, skip) and >= 1 label after it; distinct = distinct program text.")
 ASSUMPTIONS = ["vf/model.py reference assembler (lazy evaluation with cycle detection; programs it cannot decide are skipped and counted)",
                "the hook records exactly what compile_block appends (add-only, guarded by PDPY11_VERIF=1)"]
@@ -29,6 +30,10 @@ def shards(tier):
     per = (2400 if tier == "quick" else 60000) // k
     for i in range(k):
         specs.append({"part": "random", "i": i, "examples": per, "variant": ["plain", "files", "includes", "bytes"][i % 4]})
+    # model-free: mutated G texts and mutated corpus windows (the C08 generators) that still assemble must satisfy the trace invariant
+    nsurv = 600 if tier == "quick" else 20000
+    for i in range(4):
+        specs.append({"part": "survivors", "i": i, "examples": nsurv // 4, "source": "G" if i % 2 == 0 else "corpus"})
     return specs
 
 
@@ -107,6 +112,26 @@ def run_shard(spec, ctx):
             for sig, msg in replay(case):
                 ctx.fail(sig, msg, case)
         return
+    if spec["part"] == "survivors":
+        from . import c08
+        strat = c08.g_case() if spec["source"] == "G" else c08.corpus_case()
+
+        def check_survivor(case):
+            files = [(f"/vf/t{i}.mac", t) for i, t in enumerate(case["texts"])]
+            out = driver.assemble(files, charset=case.get("charset", "bk"), timeout=10, trace=True)
+            text = "\n".join(case["texts"])
+            if out.kind == "timeout":
+                raise core.Inconclusive("time budget")
+            ok = out.kind == "ok"
+            ctx.case(text, ok and len(out.code) > 4, ["survivor-" + spec["source"], "survivor-ok" if ok else "survivor-" + out.kind],
+                     sample=text[:300] if ok and ctx.evaluations % 97 == 5 else None)
+            if ok:
+                msg = trace_invariant(out)
+                if msg:
+                    return ("survivor:trace-invariant", msg + "\n--- text\n" + text[:1500], case)
+            return None
+        core.hyp_search(ctx, strat, check_survivor, spec["examples"], "c02-survivors")
+        return
     variant = spec["variant"]
     opts = {"plain": dict(max_files=1, skip=True, base_forms=["none", "link", "dot", "link-late"]),
             "files": dict(max_files=3, skip=True),
@@ -155,4 +180,12 @@ def replay(case):
     if case["kind"] == "prog":
         fails, r, texts = check_program(progcheck.prog_of(case))
         return fails or []
+    if case["kind"] == "texts":
+        files = [(f"/vf/t{i}.mac", t) for i, t in enumerate(case["texts"])]
+        out = driver.assemble(files, charset=case.get("charset", "bk"), timeout=60, trace=True)
+        if out.kind == "ok":
+            msg = trace_invariant(out)
+            if msg:
+                return [("survivor:trace-invariant", msg)]
+        return []
     return oracle.replay_generic(case)
